@@ -19,6 +19,13 @@ REPO = os.environ.get('VERIF_REPO', '/repo')
 HOLDS, VIOLATED, UNDECIDED = 'holds', 'violated', 'undecided'
 
 
+def safe_name(name):
+    """File-system safe, collision-free form of a unit name (signatures contain brackets)."""
+    for a, b in (('(', '_P'), (')', 'p_'), ('{', '_B'), ('}', 'b_')):
+        name = name.replace(a, b)
+    return re.sub(r'[^A-Za-z0-9_.-]', '_', name)
+
+
 def config_dir():
     for d in (os.path.join(REPO, '_build'), '/repo/_build', os.path.join(VERIF, 'build', 'config')):
         if os.path.exists(os.path.join(d, 'config.h')):
@@ -245,9 +252,9 @@ def extract_trace_inputs(res):
 def run_unit(u, scratch_root, tier, log_dir):
     """Run one unit. Returns UnitResult."""
     name = u['name']
-    sdir = os.path.join(scratch_root, re.sub(r'[^A-Za-z0-9_.-]', '_', name))
+    sdir = os.path.join(scratch_root, safe_name(name))
     os.makedirs(sdir, exist_ok=True)
-    log = os.path.join(log_dir, re.sub(r'[^A-Za-z0-9_.-]', '_', name) + '.log')
+    log = os.path.join(log_dir, safe_name(name) + '.log')
     open(log, 'w').close()
     r = UnitResult(name=name, kind=u['kind'], route=u['route'], status=UNDECIDED, reason=None, seconds=0.0,
                    obligations=0, discharged=0, failed=[], reach_ok=None, functions=u.get('functions', []),
@@ -277,6 +284,12 @@ def run_unit(u, scratch_root, tier, log_dir):
             if 'ignoring forall' in m or 'ignoring exists' in m:
                 r['reason'] = 'quantifier ignored by back end'
                 return r
+            if 'ran out of memory' in m or 'Solver ran out' in m or 'VERIFICATION ERROR' in m:
+                r['reason'] = 'memory limit (solver ran out of memory): no verdict'
+                return r
+        if status not in (None, 'success', 'failure') or any(res.get('status') not in ('SUCCESS', 'FAILURE') for res in results):
+            r['reason'] = 'cbmc ended without a verdict (status %s)' % status
+            return r
         reach, reach_failed = [], []
         failed, n, ok = [], 0, 0
         named = []
@@ -304,7 +317,7 @@ def run_unit(u, scratch_root, tier, log_dir):
         # undefined callee guard
         for f in failed:
             if 'undefined function should be unreachable' in f['description'] or 'no body for' in f['description']:
-                r['reason'] = 'unspecified callee: ' + f['description']
+                r['reason'] = 'unspecified callee: %s [%s / %s]' % (f['description'], f['property'], (f.get('location') or {}).get('function', '?'))
                 return r
         if failed:
             r['status'] = VIOLATED
